@@ -58,7 +58,7 @@ def load_module(ll):
         _MODULE[key] = core.parse_module(open(ll).read())
     return _MODULE[key]
 
-def make_args(core, f, ptr_sizes, concrete=None):
+def make_args(core, f, ptr_sizes, concrete=None, fix=None):
     """symbolic (or concrete) argument values for kernel f; returns (args, argspec)
     argspec: list of dicts {name, bits} | {name, nbytes} in parameter order"""
     import z3
@@ -78,7 +78,9 @@ def make_args(core, f, ptr_sizes, concrete=None):
         else:
             w = core.type_bits(ty)
             spec.append(dict(name=base, bits=w))
-            args.append(core.bv(concrete[k]['val'], w) if concrete is not None else z3.BitVec(base, w))
+            if concrete is not None: args.append(core.bv(concrete[k]['val'], w))
+            elif fix and nm.strip('%') in fix: args.append(core.bv(fix[nm.strip('%')], w)); spec[-1]['fixed'] = fix[nm.strip('%')]
+            else: args.append(z3.BitVec(base, w))
     return args, spec, mem_init
 
 def explore_kernel(job):
@@ -94,7 +96,7 @@ def explore_kernel(job):
         f = funcs[kernel]
         ex = core.Executor(funcs, declares, globs, max_visits=job.get('unwind', 12),
                            feas_timeout_ms=job.get('feas_ms', 300), fork_select=job.get('fork_select', False))
-        args, spec, mem_init = make_args(core, f, job.get('ptr_sizes'))
+        args, spec, mem_init = make_args(core, f, job.get('ptr_sizes'), fix=job.get('fix'))
         st = ex.start(kernel, args)
         for k, cells in mem_init:
             oid = st.mem.alloc(len(cells), cells)
@@ -131,13 +133,15 @@ def explore_kernel(job):
     names = [s['name'] if 'bits' in s else None for s in spec]
     getv = []
     for s in spec:
-        if 'bits' in s: getv.append(s['name'])
+        if 'bits' in s:
+            if 'fixed' not in s: getv.append(s['name'])
         else: getv += ['%s_b%d' % (s['name'], i) for i in range(s['nbytes'])]
     def ser(pc):
         # make sure every argument is declared in the query (so get-value works)
         decl = []
         for s in spec:
             if 'bits' in s:
+                if 'fixed' in s: continue
                 x = z3.BitVec(s['name'], s['bits']); decl.append(x == x)
             else:
                 for i in range(s['nbytes']):
@@ -274,7 +278,7 @@ def solve_query(q, getv, cap, quick_cap=3.0, want_model=False):
 def model_to_tuple(spec, model):
     tup = []
     for s in spec:
-        if 'bits' in s: tup.append(dict(bits=s['bits'] if s['bits'] in (8, 16, 32, 64) else 8, val=model.get(s['name'], 0)))
+        if 'bits' in s: tup.append(dict(bits=s['bits'] if s['bits'] in (8, 16, 32, 64) else 8, val=s['fixed'] if 'fixed' in s else model.get(s['name'], 0)))
         else: tup.append(dict(bytes=[model.get('%s_b%d' % (s['name'], i), 0) for i in range(s['nbytes'])]))
     return tup
 
@@ -306,7 +310,7 @@ def biased_tuples(spec, n, rng):
     for _ in range(n):
         tup = []
         for s in spec:
-            if 'bits' in s: tup.append(dict(bits=s['bits'], val=pick(s['bits'])))
+            if 'bits' in s: tup.append(dict(bits=s['bits'], val=s['fixed'] if 'fixed' in s else pick(s['bits'])))
             else: tup.append(dict(bytes=[pick(8) for _ in range(s['nbytes'])]))
         out.append(tup)
     return out
@@ -316,7 +320,7 @@ def decide_kernels(jobs, build, cap=60, workers=14, seed=0, validate_n=40, log=p
     """jobs: list of dict(kernel, unwind, soft_codes, allow, ptr_sizes, cap?).  Returns list of result dicts:
        status in held / violated / undecided / machinery-error, plus counters for the evidence file."""
     t_start = time.time()
-    for j in jobs: j['ll'] = build['ll']
+    for n, j in enumerate(jobs): j['ll'] = build['ll']; j['jid'] = n
     ctx = mp.get_context('fork')
     results = {}
     with ctx.Pool(min(workers, max(1, len(jobs)))) as pool:
@@ -335,31 +339,31 @@ def decide_kernels(jobs, build, cap=60, workers=14, seed=0, validate_n=40, log=p
             solved = list(tp.map(work, items))
         by_kernel = {}
         for (job, ex, q, want), s in zip(items, solved):
-            by_kernel.setdefault(job['kernel'], []).append((q, s))
+            by_kernel.setdefault(job['jid'], []).append((q, s))
         # ---- translator validation: concrete interpreter vs native, on solver models of ok-paths + biased random
         vjobs = []
         rng = random.Random(seed)
         for job, ex in zip(jobs, explored):
             if 'error' in ex: continue
             tuples = []
-            for q, s in by_kernel.get(job['kernel'], []):
+            for q, s in by_kernel.get(job['jid'], []):
                 if s.get('model') and s['verdict'] == 'sat':
                     tuples.append(model_to_tuple(ex['spec'], s['model']))
             tuples += biased_tuples(ex['spec'], validate_n, rng)
-            vjobs.append(dict(ll=build['ll'], kernel=job['kernel'], tuples=tuples, unwind=job.get('unwind', 12), ptr_sizes=job.get('ptr_sizes')))
+            vjobs.append(dict(ll=build['ll'], kernel=job['kernel'], jid=job['jid'], tuples=tuples, unwind=job.get('unwind', 12), ptr_sizes=job.get('ptr_sizes')))
         conc = pool.map(concrete_run, vjobs, chunksize=1)
     nat = {}
     with cf.ThreadPoolExecutor(max_workers=workers) as tp:
-        futs = {vj['kernel']: tp.submit(run_native, build['so'], vj['kernel'], vj['tuples']) for vj in vjobs}
+        futs = {vj['jid']: tp.submit(run_native, build['so'], vj['kernel'], vj['tuples']) for vj in vjobs}
         for k, fu in futs.items(): nat[k] = fu.result()
-    conc_by = {vj['kernel']: (vj, c) for vj, c in zip(vjobs, conc)}
+    conc_by = {vj['jid']: (vj, c) for vj, c in zip(vjobs, conc)}
     out = []
     for job, ex in zip(jobs, explored):
         k = job['kernel']
         r = dict(kernel=k, engine='L')
         if 'error' in ex:
             r.update(status='undecided', reason=ex['error']); out.append(r); continue
-        qs = by_kernel.get(k, [])
+        qs = by_kernel.get(job['jid'], [])
         bad = [(q, s) for q, s in qs if q['id'].split('#')[1].startswith('bad')]
         oks = [(q, s) for q, s in qs if q['id'].split('#')[1].startswith('ok')]
         softs = [(q, s) for q, s in qs if q['id'].split('#')[1].startswith('soft')]
@@ -372,15 +376,15 @@ def decide_kernels(jobs, build, cap=60, workers=14, seed=0, validate_n=40, log=p
         for q, s in qs:
             if s['verdict'] in ('sat', 'unsat'): r['solvers'][s['solver']] = r['solvers'].get(s['solver'], 0) + 1
         # translator validation
-        vj, c = conc_by[k]; n = nat[k]
-        mism = [(t, a, b) for t, a, b in zip(vj['tuples'], c, n) if not (a == b or (a.startswith('panic') and b == 'abort') or (a == 'unreachable' and b == 'abort'))]
+        vj, c = conc_by[job['jid']]; n = nat[job['jid']]
+        mism = [(t, a, b) for t, a, b in zip(vj['tuples'], c, n) if not (a == b or (a.startswith('panic') and b == 'abort') or (a == 'unreachable' and b == 'abort') or a.startswith('unsupported') or a.startswith('unwind'))]
         r['validated'] = len(vj['tuples']); r['validation_mismatch'] = len(mism)
         r['validation_nontrivial'] = sum(1 for b in n if b != 'ret=1')
         if mism:
             r.update(status='machinery-error', reason='interpreter/native mismatch: %s interp=%s native=%s' % (json.dumps(mism[0][0]), mism[0][1], mism[0][2]))
             out.append(r); continue
-        unsupported = [q['what'] for q, s in bad if q['what'].startswith('unsupported') or q['what'].startswith('explore-timeout')]
-        sat = [(q, s) for q, s in bad if s['verdict'] == 'sat' and not q['what'].startswith('unsupported')]
+        unsupported = [q['what'] for q, s in bad if q['what'].startswith('unsupported') or q['what'].startswith('explore-timeout') or q['what'].startswith('unwind-exceeded')]
+        sat = [(q, s) for q, s in bad if s['verdict'] == 'sat' and not (q['what'].startswith('unsupported') or q['what'].startswith('explore-timeout') or q['what'].startswith('unwind-exceeded'))]
         und = [(q, s) for q, s in bad if s['verdict'] == 'undecided']
         if sat:
             # replay natively (checked build and plain release build)
@@ -403,10 +407,12 @@ def decide_kernels(jobs, build, cap=60, workers=14, seed=0, validate_n=40, log=p
             else: r.update(status='machinery-error', reason='solver model does not reproduce natively: ' + json.dumps(cex)[:400])
             out.append(r); continue
         if unsupported:
-            r.update(status='undecided', reason='unsupported IR: ' + unsupported[0]); out.append(r); continue
+            r.update(status='undecided', reason='unsupported IR / exploration cap / unwinding bound: ' + unsupported[0]); out.append(r); continue
         if und:
             r['undecided'] = [dict(what=q['what'], tried=s['tried']) for q, s in und]
             r.update(status='undecided', reason='%d of %d bad paths undecided within cap' % (len(und), len(bad))); out.append(r); continue
+        if r['soft_sat']:
+            r.update(status='undecided', reason='proof-structure clause not established (codes %s satisfiable): the induction does not go through, no defect shown' % sorted(set(r['soft_sat']))); out.append(r); continue
         if not r['vacuity_ok']:
             r.update(status='undecided', reason='vacuity: verdict 0 not shown reachable (%d ok paths)' % ex['n_ok_paths']); out.append(r); continue
         r['status'] = 'held'
@@ -417,7 +423,8 @@ if __name__ == '__main__':
     # ad-hoc: python3-vt -m irsym.engine k1 k2 ...
     b = build_kernels()
     print('build', b)
-    jobs = [dict(kernel=k, unwind=int(os.environ.get('UNW', '12')), soft_codes=[20], fork_select=bool(int(os.environ.get('FS', '0')))) for k in sys.argv[1:]]
+    fix = json.loads(os.environ.get('FIX', 'null'))
+    jobs = [dict(kernel=k, unwind=int(os.environ.get('UNW', '12')), soft_codes=[20], fix=fix, fork_select=bool(int(os.environ.get('FS', '0')))) for k in sys.argv[1:]]
     for r in decide_kernels(jobs, b, cap=int(os.environ.get('CAP', '60'))):
         r.pop('spec', None); r.pop('called', None)
         print(json.dumps(r)[:1500])
